@@ -29,7 +29,7 @@ MODES = ["good", "noise", "constant", "raise_recognised", "anti", "memorise", "o
 PROBES = ["fallback_taken", "fallback_desc_false", "model_kept", "all_untrained", "some_untrained", "explicit_error",
           "memorise_worse_branch", "override_on", "enc_pm1", "enc_10", "enc_bool", "parquet", "workers>1",
           "zero_scores_returned", "multi_file", "confidence_checked", "confidence_desc_false", "fold_aligned_feature",
-          "folds_disagree_on_best_feature", "all_trained_but_fallback"]
+          "folds_disagree_on_best_feature", "all_trained_but_fallback", "confidence_rollup_level_checked"]
 RULE = (
     "For each sampled data set (planted strong feature, lower-is-better in half of them; 3 label encodings; text/Parquet) "
     "and fold count, EVERY assignment of {good, noise, constant, raise_recognised, anti, memorise, overfit} to the folds' estimators "
@@ -84,7 +84,7 @@ def _base(rng, dp, folds, override, fmt):
             "learner": "rlda", "folds": folds, "test_fdr": thr, "train_fdr": thr, "max_iter": rng.choice([1, 2]),
             "seed": rng.randint(0, 10**6), "subset_max_train": None, "max_workers": workers, "confidence": True,
             "override": override, "raw_conf_scores": True,
-            "conf": {"decoys": True, "dedup": True, "rollup": False},
+            "conf": {"decoys": True, "dedup": True, "rollup": rng.random() < 0.5},
         },
         "format": fmt,
         "row_group": 37 if fmt == "parquet" else None,
@@ -295,44 +295,53 @@ def run_scenario(scn, workdir):
                     fallback=is_feature is not None, **res.err_sig())
     probes["confidence_checked"] = 1
     prefixes = [None] if len(tables) == 1 else [f"f{i}" for i in range(len(tables))]
+    from .c05 import competing_ties
+
+    rollup = bool(cfg["conf"].get("rollup"))
     for fi, (t, s, d) in enumerate(zip(tables, scores, descs)):
         sign = 1.0 if d else -1.0
         recs = refmodel.table_records(t, sign * s)
-        exp = refmodel.strict_competition(recs, True, False, ())["psms"]
-        sc = np.array([r["score"] for r in exp])
-        tt = np.array([r["target"] for r in exp])
-        q = refmodel.tdc_ref(sc, tt, desc=True)
-        if refmodel.near_threshold(q, thr):
-            continue
-        want = int(np.sum((q <= thr) & tt))
-        p = f"{prefixes[fi]}." if prefixes[fi] else ""
-        name = f"{p}targets.psms"
-        if name not in res.files:
-            return viol("confidence_files", f"missing {name}; have {sorted(res.files)}")
-        header, rows = P.parse_result_file(res.files[name])
-        h = {c: i for i, c in enumerate(header)}
-        got = sum(1 for r in rows if float(r[h["q-value"]]) <= thr)
-        exp_ids = {r["PSMId"] for r in exp if r["target"]}
-        got_ids = {r[h["PSMId"]] for r in rows}
+        by_id = {r["PSMId"]: r for r in recs}
+        levels = refmodel.strict_competition(recs, True, rollup, ())
+        if rollup and competing_ties([t], [s]):
+            levels = {"psms": levels["psms"]}  # tied rows compete for a peptide: the winner is arbitrary
         if not d:
             probes["confidence_desc_false"] = 1
-        if got_ids != exp_ids:
-            wrong = sorted(got_ids - exp_ids)[:4]
-            return viol("confidence_direction", f"{name}: with desc={d} the retained PSM of a spectrum must be the "
-                        f"{'highest' if d else 'lowest'}-valued one; {len(got_ids - exp_ids)} retained PSMs are not, e.g. {wrong}",
-                        desc=bool(d), what="competition")
-        by_id = {r["PSMId"]: r for r in recs}
-        for r in rows:
-            src = by_id[r[h["PSMId"]]]
-            if not np.isclose(float(r[h["score"]]), sign * src["score"], rtol=1e-9, atol=1e-12):
-                return viol("confidence_score_value", f"{name}: PSM {src['PSMId']} is written with score {r[h['score']]} but "
-                            f"brew returned {sign * src['score']!r} for it (desc={d})", desc=bool(d))
-        sc_file = [float(r[h["score"]]) for r in rows]
-        if any((b > a) if d else (b < a) for a, b in zip(sc_file, sc_file[1:])):
-            return viol("confidence_direction", f"{name}: rows are not ordered best-first for desc={d}", desc=bool(d), what="order")
-        if got != want:
-            return viol("confidence_direction", f"{name}: {got} targets at q<={thr} with desc={d}, ranking in the returned "
-                        f"direction gives {want}", desc=bool(d), what="count")
+        for level, exp in levels.items():
+            sc = np.array([r["score"] for r in exp])
+            tt = np.array([r["target"] for r in exp])
+            q = refmodel.tdc_ref(sc, tt, desc=True)
+            near = refmodel.near_threshold(q, thr)
+            want = int(np.sum((q <= thr) & tt))
+            p = f"{prefixes[fi]}." if prefixes[fi] else ""
+            name = f"{p}targets.{level}"
+            if name not in res.files:
+                return viol("confidence_files", f"missing {name}; have {sorted(res.files)}")
+            header, rows = P.parse_result_file(res.files[name])
+            h = {c: i for i, c in enumerate(header)}
+            got = sum(1 for r in rows if float(r[h["q-value"]]) <= thr)
+            exp_ids = {r["PSMId"] for r in exp if r["target"]}
+            got_ids = {r[h["PSMId"]] for r in rows}
+            if level != "psms":
+                probes["confidence_rollup_level_checked"] = 1
+            if got_ids != exp_ids:
+                wrong = sorted(got_ids - exp_ids)[:4]
+                unit = "spectrum" if level == "psms" else "peptide"
+                return viol("confidence_direction", f"{name}: with desc={d} the retained PSM of a {unit} must be the "
+                            f"{'highest' if d else 'lowest'}-valued one; {len(got_ids - exp_ids)} retained PSMs are not, e.g. {wrong}",
+                            desc=bool(d), what="competition", level=level)
+            for r in rows:
+                src = by_id[r[h["PSMId"]]]
+                if not np.isclose(float(r[h["score"]]), sign * src["score"], rtol=1e-9, atol=1e-12):
+                    return viol("confidence_score_value", f"{name}: PSM {src['PSMId']} is written with score {r[h['score']]} but "
+                                f"brew returned {sign * src['score']!r} for it (desc={d})", desc=bool(d), level=level)
+            sc_file = [float(r[h["score"]]) for r in rows]
+            if any((b > a) if d else (b < a) for a, b in zip(sc_file, sc_file[1:])):
+                return viol("confidence_direction", f"{name}: rows are not ordered best-first for desc={d}", desc=bool(d),
+                            what="order", level=level)
+            if not near and got != want:
+                return viol("confidence_direction", f"{name}: {got} targets at q<={thr} with desc={d}, ranking in the returned "
+                            f"direction gives {want}", desc=bool(d), what="count", level=level)
     return out
 
 
